@@ -365,6 +365,21 @@ def exhaustive_histories(impl, L, depth):
                 ('remove_entry', 0, 0, 't'), ('add_asset', 0, None, True)]
     for seq in itertools.product(alphabet, repeat=depth):
         yield prelude + list(seq)
+    # an asset that is a member of several associations, the earlier ones having further members on its side
+    prelude2 = [('new_asset', 'Aa', 'a', [], {}, full_defs(w, 'Aa', [])), ('add_asset', 0, None, True),
+                ('new_asset', 'Aa', 'a2', [], {}, full_defs(w, 'Aa', [])), ('add_asset', 1, None, True),
+                ('new_asset', 'Bb', 'b', [], {}, full_defs(w, 'Bb', [])), ('add_asset', 2, None, True),
+                ('new_asset', 'Bb', 'c', [], {}, full_defs(w, 'Bb', [])), ('add_asset', 3, None, True),
+                ('new_assoc', 'Pp', 'pa', [0, 1], 'pb', [2]), ('add_assoc', 0),
+                ('new_assoc', 'Pp', 'pa', [0], 'pb', [3]), ('add_assoc', 1),
+                ('new_assoc', 'Pp', 'pa', [2], 'pb', [1, 0]), ('add_assoc', 2),
+                ('new_att', 'eve'), ('add_att', 0, None), ('add_entry', 0, 0, 't'), ('add_entry', 0, 1, 't')]
+    alphabet2 = [('remove_asset', 0), ('remove_asset', 1), ('remove_asset', 2), ('remove_asset', 3),
+                 ('remove_from_assoc', 0, 0), ('remove_from_assoc', 0, 1), ('remove_from_assoc', 0, 2), ('remove_from_assoc', 1, 0),
+                 ('remove_from_assoc', 2, 0), ('remove_assoc', 0), ('remove_assoc', 1), ('remove_assoc', 2),
+                 ('add_assoc', 0), ('add_assoc', 1), ('q_associated', 0, 'pb'), ('q_associated', 2, 'pa'), ('q_associated', 3, 'pa')]
+    for seq in itertools.product(alphabet2, repeat=min(depth, 2)):
+        yield prelude2 + list(seq)
 
 
 def guarded(impl, L, ops):
@@ -383,6 +398,7 @@ def guarded(impl, L, ops):
                 cls, lf, rf = w.assoc_meta[c]
                 ok = all(w.ah(x) in live for x in list(getattr(w.assocs[c], lf)) + list(getattr(w.assocs[c], rf)))
         elif k in ('add_entry', 'remove_entry'): ok = op[2] in live
+        elif k == 'q_associated': ok = op[1] in live
         elif k == 'new_assoc': ok = all(x in live for x in op[3] + op[5])
         if not ok:
             break
